@@ -365,6 +365,33 @@ pub fn gen_case(rng: &mut Rng) -> Case {
             _ => ops.push(QOp::Close),
         }
     }
+    // the whole outline a second (and third) time now and then: identical edges meet in the edge lists, every
+    // winding number doubles
+    if rng.chance(0.1) {
+        let once = ops.clone();
+        for _ in 0..rng.int(1, 2) {
+            ops.extend(once.iter().cloned());
+        }
+    }
+    // a steep fan crossed by one shallow edge now and then: that edge overtakes several neighbours in the
+    // active list within a single sample row
+    if rng.chance(0.05) && w >= 8 {
+        let x0 = rng.int(0, 8);
+        for k in 0..rng.int(2, 6) {
+            let x = x0 + 4 * k + rng.int(0, 2);
+            ops.push(QOp::Move(x, -4));
+            ops.push(QOp::Line(x + rng.int(1, 3), -4));
+            ops.push(QOp::Line(x + rng.int(1, 3) + rng.int(-2, 2), 4 * h as i64 + 4));
+            ops.push(QOp::Line(x + rng.int(-2, 2), 4 * h as i64 + 4));
+            ops.push(QOp::Close);
+        }
+        let y = rng.int(0, 4 * h as i64);
+        ops.push(QOp::Move(-8, y));
+        ops.push(QOp::Line(4 * w as i64 + 8, y + rng.int(1, 6)));
+        ops.push(QOp::Line(4 * w as i64 + 8, y + rng.int(8, 30)));
+        ops.push(QOp::Line(-8, y + rng.int(8, 30)));
+        ops.push(QOp::Close);
+    }
     Case { w, h, ops, evenodd: rng.chance(0.5), aa: rng.chance(0.6) }
 }
 
@@ -583,6 +610,31 @@ pub fn run(ctx: &Ctx) -> Outcome {
         let (tx, ty) = (rng.int(-12, 4 * base.w as i64 + 12), rng.int(-12, 4 * base.h as i64 + 12));
         // device = user * M + t, in quarter units (user coordinates are multiples of 4, so the division is exact)
         let map = |x: i64, y: i64| ((a * x + c * y) / 4 + tx, (b * x + d * y) / 4 + ty);
+        // A coincidence between the two spaces now and then: the first subpath (left open) ends at the user-space
+        // point whose coordinates are those of its own start in device space, and the next subpath starts right there.
+        let mut ops = ops;
+        if rng.chance(0.15) {
+            if let Some(QOp::Move(fx, fy)) = ops.first().cloned() {
+                let e = map(fx, fy);
+                if e.0 % 4 == 0 && e.1 % 4 == 0 && e.0.abs() < 16000 && e.1.abs() < 16000 {
+                    // end of the first run of lines
+                    let mut k = 1;
+                    while k < ops.len() && matches!(ops[k], QOp::Line(..)) {
+                        k += 1;
+                    }
+                    if k >= 3 {
+                        ops[k - 1] = QOp::Line(e.0, e.1);
+                        let tail: Vec<QOp> = ops[k..].iter().filter(|o| !matches!(o, QOp::Close)).cloned().collect();
+                        ops.truncate(k);
+                        ops.push(QOp::Move(e.0, e.1));
+                        ops.push(QOp::Line(e.0 + 4 * rng.int(2, 8), e.1 + 4 * rng.int(-6, 6)));
+                        ops.push(QOp::Line(e.0 + 4 * rng.int(-6, 6), e.1 + 4 * rng.int(2, 8)));
+                        ops.extend(tail);
+                        st.add("cases_with_a_subpath_starting_where_the_last_ended_at_its_device_space_start", 1);
+                    }
+                }
+            }
+        }
         let dev_ops: Vec<QOp> = ops.iter().map(|o| match *o { QOp::Move(x, y) => { let p = map(x, y); QOp::Move(p.0, p.1) } QOp::Line(x, y) => { let p = map(x, y); QOp::Line(p.0, p.1) } QOp::Close => QOp::Close }).collect();
         let user = Case { w: base.w, h: base.h, ops, evenodd: base.evenodd, aa: base.aa };
         let dev = Case { w: base.w, h: base.h, ops: dev_ops, evenodd: base.evenodd, aa: base.aa };
